@@ -885,7 +885,7 @@ type Discharger struct {
 func newDischarger(tier string) *Discharger {
 	wd := filepath.Join("/verif/.work", fmt.Sprintf("%d", os.Getpid()))
 	os.MkdirAll(wd, 0o755)
-	d := &Discharger{workdir: wd, quickS: 3, fullS: envInt("DVC_FULLS", 60)}
+	d := &Discharger{workdir: wd, quickS: 4, fullS: envInt("DVC_FULLS", 60)}
 	if tier == "thorough" {
 		d.fullS = 180
 	}
@@ -899,6 +899,14 @@ func (d *Discharger) ufBudget() int {
 		return b
 	}
 	return 15
+}
+
+// modeBudget: seconds for the race on a reduced query (goal-directed instantiation).
+func (d *Discharger) modeBudget() int {
+	if b := d.fullS / 4; b > 8 {
+		return b
+	}
+	return 8
 }
 
 func (d *Discharger) cleanup() { os.RemoveAll(d.workdir) }
@@ -1117,7 +1125,7 @@ func (d *Discharger) discharge(o *Obligation) {
 			return
 		}
 		lid := int(atomic.AddInt64(&d.nq, 1))
-		lr := solve(d.workdir, lid, lt, d.quickS, 8)
+		lr := solve(d.workdir, lid, lt, d.quickS, d.modeBudget())
 		if lr.Result == "unsat" {
 			o.Result, o.Solver, o.TimeS = lr.Result, lr.Solver+" ("+tag[2:]+")", lr.TimeS
 			if d.keep {
